@@ -1,13 +1,8 @@
-use minijinja::{Environment, UndefinedBehavior, context};
+use minijinja::{Environment, context};
 fn main() {
+    let env = Environment::new();
     for src in std::env::args().skip(1) {
-        let mut res = vec![];
-        for mode in [UndefinedBehavior::Strict, UndefinedBehavior::SemiStrict, UndefinedBehavior::Lenient, UndefinedBehavior::Chainable] {
-            let mut env = Environment::new();
-            env.set_undefined_behavior(mode);
-            let r = env.render_str(&src, context!{ s => "abcdef", l => vec![1,2,3] });
-            res.push(match r { Ok(s) => format!("ok({s})"), Err(e) => format!("ERR({:?})", e.kind()) });
-        }
-        println!("{src:40} => {}", res.join("  "));
+        let r = env.render_str(&src, context!{ s => "abcdef", l => vec![1,2,3], m => context!{k => 5} });
+        println!("{src:40} => {r:?}");
     }
 }
